@@ -42,6 +42,8 @@ type luaQuery struct {
 	seconds float64
 	output  string
 	model   lua.Model
+	cross   bool              // thorough: also run on every back end and diff the verdicts
+	others  map[string]string // back end -> verdict
 }
 
 type luaTrace struct {
@@ -227,7 +229,23 @@ func runLuaChecks(prop, tier string, hs []*HarnessSpec, outDir string, jobs int)
 			}
 			ok = addEnc(lua.EncodePeriod(chunk, k, qm)) && addEnc(lua.EncodePeriodStep(chunk, 1<<20))
 		case "token":
-			for _, g := range h.Lua.Grid {
+			grid := append([][]int{}, h.Lua.Grid...)
+			if gm := ts.Params["gridMax"]; gm > 0 { // all configurations up to gridMax with 2*burst >= rate
+				have := map[[2]int]bool{}
+				for _, g := range grid {
+					if len(g) == 2 {
+						have[[2]int{g[0], g[1]}] = true
+					}
+				}
+				for r := 1; r <= gm; r++ {
+					for b := 1; b <= gm; b++ {
+						if 2*b >= r && !have[[2]int{r, b}] {
+							grid = append(grid, []int{r, b})
+						}
+					}
+				}
+			}
+			for _, g := range grid {
 				if len(g) != 2 {
 					continue
 				}
@@ -236,12 +254,12 @@ func runLuaChecks(prop, tier string, hs []*HarnessSpec, outDir string, jobs int)
 					break
 				}
 			}
-			if sm := ts.Params["symMax"]; ok && sm > 0 {
-				ks := ts.Params["symK"]
-				if ks > 0 {
-					ok = addEnc(lua.EncodeToken(chunk, ks, 0, 0, int64(sm)))
-				}
-				ok = ok && addEnc(lua.EncodeTokenStep(chunk, 0, 0, int64(sm)))
+			// symbolic rate/burst: bounded histories up to symMax, the inductive step up to symStepMax
+			if sm := ts.Params["symMax"]; ok && sm > 0 && ts.Params["symK"] > 0 {
+				ok = addEnc(lua.EncodeToken(chunk, ts.Params["symK"], 0, 0, int64(sm)))
+			}
+			if sm := ts.Params["symStepMax"]; ok && sm > 0 {
+				ok = addEnc(lua.EncodeTokenStep(chunk, 0, 0, int64(sm)))
 			}
 		default:
 			inc("%s: unknown lua model %q", h.Name, h.Lua.Model)
@@ -264,7 +282,9 @@ func runLuaChecks(prop, tier string, hs []*HarnessSpec, outDir string, jobs int)
 			}
 			for pi, p := range e.Props {
 				id := fmt.Sprintf("%s-e%d-%s-p%d", h.Name, ei, e.Name, pi)
-				queries = append(queries, &luaQuery{h: h, enc: e, prop: p, id: id, file: filepath.Join(dir, id+".smt2")})
+				// thorough: the first encodings of each harness and the ones with symbolic rate/burst are cross-checked
+				cross := tier == "thorough" && (ei < 4 || strings.Contains(e.Bounds, "symbolic in"))
+				queries = append(queries, &luaQuery{h: h, enc: e, prop: p, id: id, file: filepath.Join(dir, id+".smt2"), cross: cross})
 			}
 		}
 		// validation traces: dedicated encodings pinned to fixed histories
@@ -325,6 +345,12 @@ func runLuaChecks(prop, tier string, hs []*HarnessSpec, outDir string, jobs int)
 				}
 				q.seconds += q2.seconds
 			}
+			if q.cross && (q.result == smt.Sat || q.result == smt.Unsat) {
+				q.others = map[string]string{}
+				for i, r := range smt.RunAll(q.file, []string{"z3", "z3-new", "cvc5"}, 30*time.Second, nil) {
+					q.others[[]string{"z3", "z3-new", "cvc5"}[i]] = r.Result.String()
+				}
+			}
 			mu.Lock()
 			sums[q.h.Name].SolverS += q.seconds
 			mu.Unlock()
@@ -362,6 +388,33 @@ func runLuaChecks(prop, tier string, hs []*HarnessSpec, outDir string, jobs int)
 		q.enc.Fill(tr.hist, q.model)
 	}
 	traces = append(traces, stmtTraces...)
+	crossN, crossAgree2 := 0, 0
+	for _, q := range queries {
+		if q.others == nil {
+			continue
+		}
+		crossN++
+		same := 0
+		for be, v := range q.others {
+			if v == q.result.String() {
+				same++
+			} else if v == "sat" || v == "unsat" {
+				inc("%s: solvers disagree on %q: %s says %s, %s says %s (script %s)", q.h.Name, q.prop.Label, q.solver, q.result, be, v, q.file)
+			}
+		}
+		if same >= 2 {
+			crossAgree2++
+		}
+	}
+	if crossN > 0 {
+		for _, sum := range res.Summaries {
+			if sum.Extra == nil {
+				sum.Extra = map[string]interface{}{}
+			}
+		}
+		res.Summaries[0].Extra["cross_checked_queries_all_harnesses"] = crossN
+		res.Summaries[0].Extra["confirmed_by_at_least_two_back_ends"] = crossAgree2
+	}
 	for _, q := range queries {
 		sum := sums[q.h.Name]
 		sum.Labels[q.prop.Label]++
